@@ -64,7 +64,13 @@ HEAVY = [_many_sites(140)]  # more sites than 5 applications x 25 passes of a ru
 
 NEAR_LIMIT = [(_statements_near_the_line_limit(d, limit), limit) for d, limit in ((1, 60), (2, 60), (5, 79), (8, 79), (11, 100), (12, 100), (12, 60), (3, 120))]
 
+def _assignment_chain(n):
+    """a0 = g(); a1 = a0; ...; return a<n-1>: a rule that removes one link at a time needs n iterations."""
+    return "def g():\n    return 1\n\n\ndef f():\n    a0 = g()\n" + "".join(f"    a{i} = a{i - 1}\n" for i in range(1, n)) + f"    return a{n - 1}\n\n\nprint(f())\n"
+
+
 ANTAGONISTS = [
+    _assignment_chain(30), _assignment_chain(80),
     _many_sites(14, 270),
     _many_sites(24),
     # a multi-line module docstring and a name whose import is guessed: the import must not be added again on every application
